@@ -5,6 +5,7 @@
 # (and any further ones named) against the patched scratch copy.  Everything happens in a scratch
 # worktree outside /repo and /verif, which is removed afterwards.
 set -u
+export OMP_WAIT_POLICY=${OMP_WAIT_POLICY:-PASSIVE}   # idle OpenMP threads must not spin: demos using the parallel kernels take 10-100x longer on a loaded machine otherwise
 prop="$1"; seed="$(readlink -f "$2")"; shift 2
 cd "$(dirname "$(readlink -f "$0")")/.."
 d=/var/tmp/seedrun-$prop-$$
